@@ -38,6 +38,13 @@ def populate(rng, sh, how):
         ops.append(["subscribed", rid_s, 77]); sh.take_id("subscribe", rid_s)
         ops.append(["registered", rid_r, 55]); sh.take_id("register", rid_r)
         ops.append(["turn"])
+        if rng.random() < 0.6:
+            # a second handler on the same subscription id, a second registration
+            ops.append(["subscribe", 1, None]); rid_s2, _ = sh.new("subscribe")
+            ops.append(["register", 7, None]); rid_r2, _ = sh.new("register")
+            ops.append(["subscribed", rid_s2, 77]); sh.take_id("subscribe", rid_s2)
+            ops.append(["registered", rid_r2, 56]); sh.take_id("register", rid_r2)
+            ops.append(["turn"])
         ops.append(["unsubscribe", js]); sh.new("unsubscribe")
         ops.append(["unregister", jr]); sh.new("unregister")
         ops.append(["call", 3, [1], [], None]); sh.new("call")
@@ -112,11 +119,28 @@ def gen_c06_case(rng, fw):
         insert(["lost", rng.random() < 0.5])
     elif rng.random() < 0.7:
         ops.append(["lost", False])
-    # API calls after the end
-    for _ in range(rng.choice([0, 1, 1, 2])):
+    # API calls after the end: every API, against whatever local state the history built (several handlers on one
+    # subscription, several registrations, pending requests)
+    for _ in range(rng.choice([0, 1, 1, 2, 3])):
         ops.append(rng.choice([["call", 1, [], [], None], ["publish", 2, [], [], {"ack": True, "excl": None}],
                                ["subscribe", 3, None], ["register", 4, None], ["leave", None], ["disconnect"],
-                               ["publish", 2, [], [], None]]))
+                               ["publish", 2, [], [], None],
+                               ["unsubscribe", rng.choice(sh.sub_futs) if sh.sub_futs else 0],
+                               ["unsubscribe", rng.choice(sh.sub_futs) if sh.sub_futs else 1],
+                               ["unregister", rng.choice(sh.reg_futs) if sh.reg_futs else 0],
+                               ["cancel", rng.randrange(0, max(1, sh.nret))]]))
+    # a second life of the same session object (the factories re-use a session instance for every reconnect)
+    if rng.random() < 0.3 and any(o[0] == "lost" for o in ops):
+        ops.append(["open"])
+        if rng.random() < 0.85:
+            ops.append(["welcome", rng.choice([1235, 1235, 2])])
+            for _ in range(rng.randint(0, 3)):
+                ops.append(c04.gen_api_op(rng, sh))
+            ops += rng.choice([[["goodbye", "normal"]], [["leave", None], ["goodbye", "normal"]], [["leave", None]], []])
+        else:
+            ops.append(["abort", "noauth"])
+        if rng.random() < 0.8:
+            ops.append(["lost", rng.random() < 0.5])
     # asyncio: loop iterations; mostly after every op (settled), sometimes sparse (two messages in one read)
     if fw == "aio":
         mode = rng.choice(["settled", "settled", "sparse", "none"])
@@ -130,6 +154,8 @@ def aio_schedule(ops, turns_after):
     in one read)."""
     out = []
     for o in ops:
+        if o[0] == "open" and out:
+            out += [["turn"]] * 3          # a reconnect takes many loop iterations: the previous life has settled
         out.append(o)
         k = turns_after(o)
         if o[0] in ("open", "challenge"):
@@ -175,6 +201,35 @@ def conversation(cfg, ops):
 
 
 def oracle_c06(fw, cfg, ops, res):
+    """A history is a sequence of LIVES of one session object (a new life starts with each onOpen after the previous
+    transport was lost: the transport factories re-use a session instance for every reconnect).  Every clause about one
+    session / one transport connection is judged in each life separately (_oracle_life); futures are followed across
+    lives; the end-state clauses are judged at the end of the history."""
+    trace = res["trace"]
+    starts = [i for i, o in enumerate(ops) if o[0] == "open" and any(p[0] == "lost" for p in ops[:i])
+              and not _attached_before(ops, i)]
+    bounds = [0] + starts + [len(ops)]
+    glob = {"created": {}, "how": {}, "reg_req": {}, "dupreg": set(), "completed_at": {},
+            "sid0": any(o[0] == "welcome" and o[1] == 0 for o in ops)}
+    v = []
+    for k in range(len(bounds) - 1):
+        a, b = bounds[k], bounds[k + 1]
+        if a == b: continue
+        for key, text in _oracle_life(fw, cfg, ops[a:b], trace[a:b], res, b == len(ops), glob, a):
+            v.append((key, text if k == 0 else f"[life {k + 1} of the session object] " + text))
+    return v
+
+
+def _attached_before(ops, i):
+    """is a transport attached just before op i (an 'open' then is ignored by driver and model)"""
+    att = False
+    for o in ops[:i]:
+        if o[0] == "open": att = True
+        if o[0] == "lost": att = False
+    return att
+
+
+def _oracle_life(fw, cfg, ops, trace, res, last, glob, offset):
     """(key, text) list, from the property text, on the implementation log only.  Clauses about callback order and
     at-most-once are judged on histories whose router follows the WAMP state machine with at most one illegal message
     (the property's quantifier) and whose WELCOME carries a session id in 1..2^53.
@@ -186,19 +241,19 @@ def oracle_c06(fw, cfg, ops, res):
        api-after-end/.. API call after the end returned a pending future
        .../ESCAPED/...  an exception other than ProtocolError left an entry point"""
     v = []
-    trace = res["trace"]
     phases, n_illegal = conversation(cfg, ops)
-    sid0 = any(o[0] == "welcome" and o[1] == 0 for o in ops)
-    in_scope = n_illegal <= 1 and not sid0
+    sid0 = glob["sid0"]           # a session id 0 (outside 1..2^53) is never forgotten: it poisons later lives too
+    in_scope = n_illegal <= 1 and not sid0 and cfg["connect"] == "join"     # no HELLO, no legal conversation
     default_user = cfg["leave_super"] and cfg["disc_super"] and cfg["connect"] == "join"
     last_router = None
     fired = []                     # (name) in order
     lost = False
-    created = {}                   # future j -> op index of creation
-    how = {}                       # future j -> "call" | "reentrant-call" | ... (which API call created it, and whether
+    created = glob["created"]      # future j -> (global) op index of creation
+    how = glob["how"]              # future j -> "call" | "reentrant-call" | ... (which API call created it, and whether
                                    #             from inside a callback)
-    reg_req, dupreg = {}, set()    # register request id -> future; futures hit by the duplicate-registration-id finding
-    completed_at = {}
+    reg_req, dupreg = glob["reg_req"], glob["dupreg"]   # register request id -> future; futures hit by the duplicate-
+                                                        # registration-id finding
+    completed_at = glob["completed_at"]
     goodbye_out = 0
     initiated = False
     session_open = False           # onJoin fired, neither left nor lost yet
@@ -217,6 +272,8 @@ def oracle_c06(fw, cfg, ops, res):
                 reent = True
             if e[0] == "sent" and e[1][0] in c04.REQUEST_MSGS:
                 last_req = e[1]
+            if e[0] == "apiret" and e[1] is not None and last_req is None:
+                how.setdefault(e[1], "no-request")
             if e[0] == "apiret" and e[1] is not None and last_req is not None:
                 how[e[1]] = ("reentrant-" if reent else "") + last_req[0]
                 if last_req[0] == "register":
@@ -226,11 +283,11 @@ def oracle_c06(fw, cfg, ops, res):
             dupreg.add(reg_req[op[1]])        # REGISTERED for a pending register request rejected: duplicate registration id
         for e in evs:
             if e[0] == "apiret" and e[1] is not None:
-                created[e[1]] = i
+                created[e[1]] = i + offset
             if e[0] == "completed":
                 if e[1] in completed_at:
-                    v.append(("future/completed-twice", f"future {e[1]} completed twice (ops {completed_at[e[1]]}, {i})"))
-                completed_at[e[1]] = i
+                    v.append(("future/completed-twice", f"future {e[1]} completed twice (ops {completed_at[e[1]]}, {i + offset})"))
+                completed_at[e[1]] = i + offset
             if e[0] == "raised" and e[1] != "ProtocolError" and n != "result":
                 if not (e[1] == "TransportLost" and n == "goodbye" and not cfg.get("lenient")):
                     v.append((f"{n}/ESCAPED/{e[1]}", f"{e[1]} escaped at op {i}: {op}"))
@@ -291,7 +348,7 @@ def oracle_c06(fw, cfg, ops, res):
         # --- nothing pending once onLeave (default) has run: Twisted completes synchronously ---
         if fw == "tx" and cfg["leave_super"] and any(e[0] == "called" and e[1][0] == "leave" for e in evs):
             for j, at in created.items():
-                if at < i and j not in completed_at:
+                if at < i + offset and j not in completed_at:
                     key = "pending/future-never-completed" if j in dupreg else f"pending/not-completed-by-onLeave/{how.get(j, '?')}"
                     v.append((key, f"future {j} (created at op {at}) not completed when onLeave ran at op {i}"))
         if n == "lost":
@@ -299,6 +356,10 @@ def oracle_c06(fw, cfg, ops, res):
         if n == "turn":
             turns_since_leave += 1
         # --- API after the end ---
+        if n in ("unsubscribe", "unregister") and lost:
+            # whatever the local state (several handlers on the subscription, several registrations): it must fail
+            if not any(e[0] == "apiraised" for e in evs):
+                v.append((f"api-after-end/{n}-did-not-raise", f"{op} after transport loss: {evs}"))
         if n in ("call", "publish", "subscribe", "register"):
             ret = [e for e in evs if e[0] == "apiret" and e[1] is not None]
             if lost and not any(e[0] == "apiraised" and e[1] == "TransportLost" for e in evs):
@@ -318,7 +379,7 @@ def oracle_c06(fw, cfg, ops, res):
                     and any(o2[0] == "open" for o2 in ops[:i]) and "leave" not in fired:
                 v.append(("leave/missing-after-abort", f"router ABORT at op {i}, onLeave never fired"))
     # --- nothing pending after the transport is gone (default onDisconnect) ---
-    if lost and cfg["disc_super"]:
+    if last and lost and cfg["disc_super"]:
         if any(res["tables"].values()):
             v.append(("pending/tables-not-empty-after-disconnect", f"tables {res['tables']} after transport loss"))
         for j, done in res["futures"].items():
@@ -349,6 +410,13 @@ def systematic_cases(fw, cfgs=None, spacings=(0, 1, 3)):
          ["publish", 4, [], [], {"ack": True, "excl": None}], ["subscribe", 5, None], ["register", 6, None],
          ["goodbye", "normal"], ["lost", True]],
     ]
+    convs += [
+        # two lives of one session object: the first left locally, the second closed by the router -- and vice versa
+        [["open"], ["welcome", 1234], ["leave", None], ["goodbye", "normal"], ["lost", True],
+         ["open"], ["welcome", 1235], ["goodbye", "normal"], ["lost", True]],
+        [["open"], ["welcome", 1234], ["goodbye", "normal"], ["lost", True],
+         ["open"], ["welcome", 1235], ["leave", None], ["goodbye", "normal"], ["lost", True]],
+    ]
     faults = [["lost", False], ["leave", None], ["disconnect"], ["goodbye", "normal"], ["welcome", 99], ["abort", "noauth"],
               ["challenge"], ["other"], ["published", 9, 9], ["call", 1, [], [], None], ["subscribe", 1, None]]
     all_cfgs = [base, dict(base, challenge="sig"), dict(base, leave_raises=True), dict(base, leave_super=False),
@@ -364,6 +432,30 @@ def systematic_cases(fw, cfgs=None, spacings=(0, 1, 3)):
                         out.append({"cfg": cfg, "ops": aio_schedule(ops, lambda o, k=spacing: k)})
                 else:
                     out.append({"cfg": cfg, "ops": ops})
+    return out
+
+
+def api_after_end_cases(fw):
+    """every API call x every way the session can end, on a rich local state: two handlers on subscription 77, one on 78,
+    two registrations, one pending request of each of call / publish / subscribe / register"""
+    base = dict(c04.DEFAULT_CFG)
+    build = [["open"], ["welcome", 1234],
+             ["subscribe", 1, None], ["subscribe", 1, None], ["subscribe", 2, None], ["register", 3, None], ["register", 4, None],
+             ["subscribed", 1, 77], ["subscribed", 2, 77], ["subscribed", 3, 78], ["registered", 4, 55], ["registered", 5, 56],
+             ["turn"],
+             ["call", 5, [1], [], None], ["publish", 6, [], [], {"ack": True, "excl": None}], ["subscribe", 7, None],
+             ["register", 8, None]]
+    ends = [[["goodbye", "normal"], ["lost", True]], [["lost", False]], [["leave", None], ["goodbye", "normal"], ["lost", True]],
+            [["goodbye", "normal"]], [["disconnect"]]]
+    apis = [["call", 1, [], [], None], ["publish", 2, [], [], {"ack": True, "excl": None}], ["publish", 2, [], [], None],
+            ["subscribe", 3, None], ["register", 4, None], ["unsubscribe", 0], ["unsubscribe", 1], ["unsubscribe", 2],
+            ["unregister", 3], ["unregister", 4], ["cancel", 5], ["leave", None], ["disconnect"]]
+    out = []
+    for cfg in (base, dict(base, lenient=True)):
+        for end in ends:
+            for api in apis:
+                ops = build + end + [api, ["unsubscribe", 1], ["call", 1, [], [], None]]
+                out.append({"cfg": cfg, "ops": aio_schedule(ops, lambda o: 2) if fw == "aio" else ops})
     return out
 
 
@@ -409,6 +501,7 @@ def run(ck):
             sysc = systematic_cases(fw, cfgs=[0], spacings=(0, 3)) + r2.sample(rest, min(len(rest), 250))
         else:
             sysc = systematic_cases(fw)
+        sysc += api_after_end_cases(fw)
         cases += sysc
         cases += [gen_c06_case(rng, fw) for _ in range(n_hist)]
         per = (len(cases) + shards - 1) // shards
